@@ -1,6 +1,7 @@
 (* C18 -- the v1 verdict is final once the first line break or 107 bytes have been seen.
    Statements only; proofs in Proofs/V1Final.v. *)
-From PPP Require Import Base.Bytes Std.Utf8 Std.Text Model.V1 Proofs.BytesFacts Proofs.V1Text Proofs.V1Final Proofs.Extra.
+From PPP Require Import Base.Bytes Std.Utf8 Std.Text Model.V1 Proofs.BytesFacts Proofs.V1Text Proofs.V1Final Proofs.Extra Proofs.Bounded.
+From PPP Require Import Model.V2 Model.Auto.
 
 (* settled x: the input contains its first CR followed by at least one more byte, or 107 bytes without CR *)
 Theorem C18_bytes : forall x, settled x -> is_incomplete1 (p1 x) = false.
@@ -33,9 +34,22 @@ Example C18_example :
   /\ p1 [80;13;80] = Err (BParse InvalidPrefix).
 Proof. split; [left; exists 10; split; [reflexivity|vm_compute; reflexivity]|split; vm_compute; reflexivity]. Qed.
 
+(* "a receiver never has to buffer more than 107 bytes": stated directly -- whenever the v1 result is incomplete,
+   the only case in which a receiver keeps waiting, the input has at most 107 bytes *)
+Theorem C18_bounded : forall x, is_incomplete1 (p1 x) = true -> lenN x <= MAX_LENGTH.
+Proof. exact v1_incomplete_bounded. Qed.
+
+(* and through the auto-detecting entry point, where a v2 header may legitimately need 16 + 65535 bytes: an
+   incomplete result means at most 65 550 bytes are held; a peer cannot make a receiver that gives up on
+   terminal errors buffer without bound *)
+Theorem C18_auto_bounded : forall x, wf_bytes x = true -> is_incomplete_a (pa x) = true -> lenN x <= 65550.
+Proof. exact auto_incomplete_bounded. Qed.
+
 Print Assumptions C18_bytes.
 Print Assumptions C18_str.
 Print Assumptions C18_stable.
 Print Assumptions C18_stable_str.
 Print Assumptions C18_stable_long.
 Print Assumptions C18_core.
+Print Assumptions C18_bounded.
+Print Assumptions C18_auto_bounded.
